@@ -283,6 +283,23 @@ def call(prob, cfg, kktsolver_obj=None):
             sol = solvers.gp(list(prob['K']), Fm, cvx.dmat(prob['g']), kktsolver=kkt, **okw, **kw)
         else:
             F = make_F(prob, cfg, rec)
+            if cfg.get('operators'):
+                # G and A as Python functions; this requires a user KKT solver: a built-in factory fed with the matrices
+                from cvxopt import misc, base
+                Gmat, Amat = G, A
+                m_ = nfun(prob)
+                epi_ = prob['entry'] == 'cp'
+                fac_ = misc.kkt_ldl(Gmat, dd, Amat, m_ - 1 if epi_ else m_)
+
+                def G(x, y, trans='N', alpha=1.0, beta=0.0):
+                    misc.sgemv(Gmat, x, y, dd, trans=trans, alpha=alpha, beta=beta)
+
+                def A(x, y, trans='N', alpha=1.0, beta=0.0):
+                    base.gemv(Amat, x, y, trans=trans, alpha=alpha, beta=beta)
+
+                def kkt(x, z, W):
+                    f_, Df_, H_ = F(x, z)
+                    return fac_(W, H_, Df_[1:, :] if epi_ else Df_)
             if prob['entry'] == 'cp':
                 sol = solvers.cp(F, G, hm, dd, A, bm, kktsolver=kkt, **okw)
             else:
